@@ -8,7 +8,7 @@ if ! git apply --check /verif/seeded/$S/patch.diff 2>/dev/null; then
 else
   git apply /verif/seeded/$S/patch.diff
 fi
-cd /verif && ./check $P --tier $T > /tmp/seedrun_$S_$P.log 2>&1; rc=$?
-tail -6 /tmp/seedrun_$S_$P.log | cut -c1-400
+mkdir -p /verif/build/seed_evidence; cd /verif && VERIF_EVIDENCE_DIR=/verif/build/seed_evidence ./check $P --tier $T > /tmp/seedrun_${S}_${P}.log 2>&1; rc=$?
+tail -6 /tmp/seedrun_${S}_${P}.log | cut -c1-400
 cd /repo && git checkout -- . && git status --short | head -3
 echo "SEED $S check $P tier $T exit=$rc"
